@@ -206,6 +206,14 @@ def gen_cases(tier, rng):
     add(mk(["W:B1", "I:60:1", "S", "W:B2", "J:3000"]))
     add(mk(["S", "E:cn", "J:3000"]))
     add(mk(["W:B1", "I:60:1", "S", "W:U", "J:3000"]))
+    # 8. long bursts inside ONE TLS record followed by silence: every PDU the TLS layer already holds must be dispatched
+    #    without further traffic, however many they are (a bound on the PDUs handled per wake-up shows only beyond it)
+    for n in ([17, 40] if quick else [15, 16, 17, 18, 31, 32, 33, 64, 100, 150]):
+        pdus = ["B%d" % i for i in range(1, n + 1)]
+        add(mk(["W:" + "+".join(pdus), "I:100:%d" % n, "J:150"]))
+        add(mk(["W:" + "+".join(pdus + ["U"]), "J:3000"]))
+        add(mk(["W:" + "+".join(pdus), "I:100:%d" % n, "E:cn", "J:3000"]))
+        add(mk(["W:" + "+".join(pdus[:n // 2]), "W:" + "+".join(pdus[n // 2:]), "I:100:%d" % n, "W:U", "J:3000"]))
     return cases
 
 # ------------------------------------------------------------------------------------------ oracle
